@@ -10,6 +10,8 @@
 
 #[path = "../delta/case.rs"]
 mod case;
+#[path = "../delta/edge.rs"]
+mod edge;
 #[path = "../delta/inputs.rs"]
 mod inputs;
 #[path = "../delta/module.rs"]
